@@ -159,6 +159,10 @@ class TaskLoader:
                 )
             )
             raise syntax_err from ex
+        except ConductorError:
+            # E.g., a `ConductorAbort` raised by our signal handlers while the
+            # included file runs. This is not a parsing problem.
+            raise
         except Exception as ex:
             run_err = TaskParseError(error_details=str(ex))
             run_err.add_file_context(
